@@ -10,11 +10,15 @@ DATA = 0x100000
 DATA_LEN = 0x48000          # 288 KiB of patterned device memory
 
 
-def build(max_cmd, max_ack, ops, pend=None, retry=None, resp_ms=5, addr_base=DATA):
+def build(max_cmd, max_ack, ops, pend=None, retry=None, resp_ms=5, addr_base=DATA, data_len=None):
     """ops: list of ('r', addr, n) | ('w', addr, n, seed).  pend: list of pending counts per
     transaction after open (cycled)."""
     w = std_world(max_cmd, max_ack, resp_ms)
-    w.fill(addr_base, DATA_LEN, 11)
+    # device memory just large enough for the history (the model's cost grows with the image size)
+    ext = max([o[1] + o[2] - addr_base for o in ops] + [0]) + 64
+    if data_len is None:
+        data_len = min(DATA_LEN, (ext + 255) // 256 * 256)
+    w.fill(addr_base, data_len, 11)
     toks = []
     expect = []
     wtoks = list(w.toks)
@@ -42,7 +46,7 @@ def build(max_cmd, max_ack, ops, pend=None, retry=None, resp_ms=5, addr_base=DAT
             expect.append(("ok", None))
             ntx += sum(-(-min(65527, n - o) // chunk_w) for o in range(0, n, 65527))
             lo = max(addr_base, a - 8)
-            hi = min(addr_base + DATA_LEN, a + n + 8)
+            hi = min(addr_base + data_len, a + n + 8)
             optoks += [DUMP, lo, hi - lo]
             expect.append(("ok", show_data(w.read(lo, hi - lo))))
     if pend:
@@ -143,14 +147,16 @@ def gen_cases(ck):
             n = rng.choice([0, 1, rng.below(40), rng.below(400)])
             if mc > 100 and ma > 100:
                 n = rng.choice([n, rng.below(20000)])
-            a = DATA + rng.below(DATA_LEN - 30000)
+            a = DATA + rng.below(30000)
             ops.append(("r", a, n) if rng.chance(1, 2) else ("w", a, n, rng.below(256)))
         cases.append(build(mc, ma, ops, resp_ms=rng.choice([0, 1, 5, 1000])))
     # request-id wrap: more than 65536 transactions
-    cases.append(build(24, 16, [("r", DATA, 4 * (65600 if not quick else 65545)), ("w", DATA + 2, 3, 1), ("r", DATA, 8)]))
+    wrap = build(24, 13, [("r", DATA, 4000)] * 17 + [("w", DATA + 2, 3, 1), ("r", DATA, 8)])
+    wrap.meta["model"] = not quick      # 68,000 transactions: ~2.5 min in the kernel VM; quick runs code + predicate only
+    cases.append(wrap)
     # top of the address space
-    top = (1 << 64) - DATA_LEN
-    cases.append(build(64, 64, [("r", top + DATA_LEN - 100, 100), ("w", top + DATA_LEN - 60, 60, 5)], addr_base=top))
+    top = (1 << 64) - 4096
+    cases.append(build(64, 64, [("r", top + 4096 - 100, 100), ("w", top + 4096 - 60, 60, 5)], addr_base=top, data_len=4096))
     return cases
 
 
@@ -190,8 +196,14 @@ def main():
     ck.phase("generate")
     impl = ck.run_impl(binary, [c.line for c in cases], jobs=16, big_stack=True)
     ck.phase("impl")
-    model = ck.run_model_terms(["ControlRun"], [model_term(c) for c in cases], per_eval=1, jobs=16)
+    both = [i for i, c in enumerate(cases) if c.meta.get("model", True)]
+    only = [i for i, c in enumerate(cases) if not c.meta.get("model", True)]
+    model = ck.run_model_terms(["ControlRun"], [model_term(cases[i]) for i in both], per_eval=1, jobs=16)
     ck.phase("model")
-    ck.compare(cases, impl, model, predicate, nontrivial, family="conforming device histories")
+    ck.compare([cases[i] for i in both], [impl[i] for i in both], model, predicate, nontrivial,
+               family="conforming device histories")
+    if only:
+        ck.compare([cases[i] for i in only], [impl[i] for i in only], None, predicate, nontrivial,
+                   family="request-id wrap (implementation + predicate only in the quick tier)")
     ck.dist["transactions"] = sum(c.meta["ntx"] for c in cases)
     ck.finish()
